@@ -219,6 +219,20 @@ def pub_record_tlv(time, imp, refs=(), uris=(), tag=0x0803):
     return tlv(tag, body)
 
 
+def rfc3161_output(r, out_alg):
+    """the legacy (RFC 3161) record's output hash = the input of the first aggregation chain:
+       H_out( imprint( H_sigAttr( sigAttrPrefix || digest( H_tstInfo( tstInfoPrefix || digest(input hash) || tstInfoSuffix ) ) || sigAttrSuffix ) ) )"""
+    tst = imprint(r["talg"], r["tpre"] + r["inp"][1:] + r["tsuf"])
+    sa = imprint(r["salg"], r["spre"] + tst[1:] + r["ssuf"])
+    return imprint(out_alg, sa)
+
+
+def rfc3161_tlv(r):
+    body = tlv(0x02, uint(r["time"])) + b"".join(tlv(0x03, uint(i)) for i in r["index"]) + tlv(0x05, r["inp"])
+    body += tlv(0x10, r["tpre"]) + tlv(0x11, r["tsuf"]) + tlv(0x12, uint(r["talg"])) + tlv(0x13, r["spre"]) + tlv(0x14, r["ssuf"]) + tlv(0x15, uint(r["salg"]))
+    return tlv(0x0806, body)
+
+
 def signature_tlv(parts):
     return tlv(0x0800, b"".join(parts))
 
